@@ -2332,6 +2332,7 @@ static int sync_internal_basis (
 {
 	int rval = 0;
 	int singular = 0;
+	EGLPNUM_TYPENAME_lp_status_info saved_stat;
 
 	if (p->basis == 0)
 	{
@@ -2342,6 +2343,9 @@ static int sync_internal_basis (
 	if (p->factorok && p->lp->baz && p->lp->basisid != -1)
 		goto CLEANUP;
 
+	/* the solution accessors consult lp->basisstat: it describes the cached
+	 * solution, not the simplex data rebuilt here */
+	saved_stat = p->lp->basisstat;
 	EGLPNUM_TYPENAME_free_internal_lpinfo (p->lp);
 	EGLPNUM_TYPENAME_init_internal_lpinfo (p->lp);
 	rval = EGLPNUM_TYPENAME_build_internal_lpinfo (p->lp);
@@ -2351,6 +2355,7 @@ static int sync_internal_basis (
 	CHECKRVALG (rval, CLEANUP);
 	rval = EGLPNUM_TYPENAME_ILLbasis_factor (p->lp, &singular);
 	CHECKRVALG (rval, CLEANUP);
+	p->lp->basisstat = saved_stat;
 	if (singular)
 	{
 		QSlog("the stored basis is singular");
@@ -2418,6 +2423,13 @@ EGLPNUM_TYPENAME_QSLIB_INTERFACE int EGLPNUM_TYPENAME_QSget_tableau_row (
 	if (p->cache == 0)
 	{
 		QSlog("LP has not been optimized in EGLPNUM_TYPENAME_QSget_tableau_row");
+		rval = 1;
+		goto CLEANUP;
+	}
+	if (indx < 0 || indx >= EGLPNUM_TYPENAME_QSget_rowcount (p))
+	{
+		QSlog("row index %d outside valid bounds [%d:%d]",
+								indx, 0, EGLPNUM_TYPENAME_QSget_rowcount (p) - 1);
 		rval = 1;
 		goto CLEANUP;
 	}
